@@ -11,7 +11,7 @@
    counters stay in range (g_ovf = false); the loop keeps running (no shutdown).  sane s is
    g_ovf = false /\ g_fault = false. *)
 From GV Require Import Lib.Trace Lib.Interleave Model.Wakeup
-  Proofs.WakeupBase Proofs.WakeupInv Proofs.WakeupProofs.
+  Proofs.WakeupBase Proofs.WakeupInv Proofs.WakeupProofs Proofs.WakeupGhost Proofs.WakeupOnce.
 Open Scope Z_scope.
 Open Scope list_scope.
 
@@ -58,3 +58,135 @@ Theorem C03_quiescence_or_progress : forall s, reachable wk_init wk_step s ->
   ((forall t, t_pc (get_trig (trigs s) t) = TIdle) /\ (c_pc (con s) <> CWait \/ eff_edge (w_sh s) = true)).
 Proof. exact quiescence_or_progress. Qed.
 Print Assumptions C03_quiescence_or_progress.
+
+(* exactly once.  g_exec is the log of executed requests (with the queue each came from), g_cb the
+   log of AsyncCallback invocations, g_begun the requests for which Trigger was called, g_acc the
+   ids whose Trigger returned nil ("accepted without error").  In every reachable state: no request
+   is executed twice; the callback log is exactly the executions of requests that have a callback,
+   in order (invoked exactly once, with the execution); only issued requests are executed; and at
+   quiescence every accepted request has been executed. *)
+Theorem C03_exactly_once : forall s, reachable wk_init wk_step s ->
+  g_ovf (w_gh s) = false /\ g_fault (w_gh s) = false ->
+  NoDup (map (fun e => tk_id (snd e)) (g_exec (w_gh s))) /\
+  g_cb (w_gh s) = flat_map (fun e => if sp_cb (tk_spec (snd e)) then [tk_id (snd e)] else []) (g_exec (w_gh s)) /\
+  (forall e, In e (g_exec (w_gh s)) -> In (snd e) (g_begun (w_gh s))) /\
+  ((forall t, t_pc (get_trig (trigs s) t) = TIdle) /\ c_pc (con s) = CWait /\ eff_edge (w_sh s) = false ->
+   forall i, In i (g_acc (w_gh s)) -> In i (map (fun e => tk_id (snd e)) (g_exec (w_gh s)))).
+Proof. exact exactly_once. Qed.
+Print Assumptions C03_exactly_once.
+
+(* high-priority requests issued by one goroutine are carried out in issue order: ids are issue
+   numbers (the id of a request is the number of Trigger calls begun before it); if a and b were
+   issued by the same thread (a producer or the loop itself), both with high priority, a before b,
+   and b has been executed, then a was executed before b *)
+Theorem C03_urgent_fifo_per_producer : forall s a b l1 l2 q, reachable wk_init wk_step s ->
+  g_ovf (w_gh s) = false /\ g_fault (w_gh s) = false ->
+  In a (g_begun (w_gh s)) -> In b (g_begun (w_gh s)) ->
+  tk_prod a = tk_prod b -> sp_high (tk_spec a) = true -> sp_high (tk_spec b) = true ->
+  (tk_id a < tk_id b)%nat ->
+  g_exec (w_gh s) = l1 ++ (q, b) :: l2 ->
+  exists q' l3 l4, l1 = l3 ++ (q', a) :: l4.
+Proof. exact urgent_fifo_per_producer. Qed.
+Print Assumptions C03_urgent_fifo_per_producer.
+
+(* a Wake on an open connection results in exactly one OnTraffic: g_traffic logs (id of the wake
+   request, connection) for every OnTraffic made by a wake task.  No wake request has two entries;
+   every entry belongs to an executed wake request for that connection; and an executed wake
+   request whose connection has not been closed has its entry.  (The task body of Wake calls
+   el.wake once: connection_unix.go; el.wake ignores a connection that is no longer open.) *)
+Theorem C03_wake_one_traffic : forall s, reachable wk_init wk_step s ->
+  g_ovf (w_gh s) = false /\ g_fault (w_gh s) = false ->
+  NoDup (map fst (g_traffic (w_gh s))) /\
+  (forall i c, In (i, c) (g_traffic (w_gh s)) ->
+     exists q x, In (q, x) (g_exec (w_gh s)) /\ tk_id x = i /\ sp_kind (tk_spec x) = KWake c) /\
+  (forall q x c, In (q, x) (g_exec (w_gh s)) -> sp_kind (tk_spec x) = KWake c -> ~ In c (closed (w_env s)) ->
+     In (tk_id x, c) (g_traffic (w_gh s))).
+Proof. exact wake_one_traffic. Qed.
+Print Assumptions C03_wake_one_traffic.
+
+(* ---- non-vacuity: concrete schedules, evaluated by the kernel ---- *)
+Definition hi : tspec := mkSpec true KPlain false O.
+Definition st (t : nat) : tid * choice := (t, CStep []).
+(* the loop's round for one queued urgent request: wait, unlink, decount+run, urgent empty (+ return),
+   low empty (+ return), store 0, re-check low, re-check urgent, wait(0) *)
+Definition round : list (tid * choice) :=
+  [(O, CStep [-1]); st 0; st 0; st 0; (O, CTau); st 0; (O, CTau); st 0; st 0; st 0; st 0].
+
+(* one producer, one high-priority request, the loop runs it and goes back to sleep: a quiescent,
+   sane, reachable state with a non-empty execution log *)
+Definition ex_one : list (tid * choice) := [(1%nat, CStart hi); st 1; st 1; st 1; st 1] ++ round.
+
+Example C03_ex_quiescent :
+  let s := fst (run wk_fstep (init_state 1024 256) ex_one) in
+  reachable wk_init wk_step s /\ g_ovf (w_gh s) = false /\ g_fault (w_gh s) = false /\
+  quiescent_b s = true /\ map (fun e => tk_id (snd e)) (g_exec (w_gh s)) = [O] /\ g_acc (w_gh s) = [O] /\
+  flag (w_sh s) = 0 /\ itemsU (w_sh s) = [].
+Proof. split; [apply wk_run_reachable|]. vm_compute. repeat split; reflexivity. Qed.
+
+(* the race the re-check exists for: producer 2's CAS lands between the loop's store 0 and its
+   re-check; the loop's own CAS fails, the loop finds nothing at wait(0), producer 2 then writes
+   the eventfd and the loop runs request 1 *)
+Definition ex_race : list (tid * choice) :=
+  [(1%nat, CStart hi); st 1; st 1; st 1; st 1;
+   (O, CStep [-1]); st 0; st 0; st 0; (O, CTau); st 0; (O, CTau);
+   (2%nat, CStart hi); st 2; st 2;
+   st 0;                       (* store 0 *)
+   st 2;                       (* producer 2: CAS 0 -> 1 wins *)
+   st 0; st 0; st 0;           (* re-check: low 0, urgent 1, the loop's CAS fails *)
+   st 0;                       (* wait(0): nothing *)
+   st 2] ++ round.
+
+Example C03_ex_race :
+  let r := run wk_fstep (init_state 1024 256) ex_race in
+  reachable wk_init wk_step (fst r) /\
+  nth 16 (snd r) [] = [EvCas 2%nat true] /\ nth 18 (snd r) [] = [EvLd O QU 1] /\
+  nth 19 (snd r) [] = [EvCas O false] /\ nth 20 (snd r) [] = [EvWait 0 []] /\
+  quiescent_b (fst r) = true /\ map (fun e => tk_id (snd e)) (g_exec (w_gh (fst r))) = [0%nat; 1%nat].
+Proof. split; [apply wk_run_reachable|]. vm_compute. repeat split; reflexivity. Qed.
+
+(* a dequeue overtakes a count: the urgent length is -1 while the queue is empty; the re-check takes
+   that for "not empty" and the loop wakes itself up (a state in which K holds with n_p1 = 1) *)
+Definition ex_overtake : list (tid * choice) :=
+  [(2%nat, CStart hi); st 2; st 2; st 2; st 2; (O, CStep [-1]);
+   (1%nat, CStart hi); st 1;                        (* producer 1 linked, not counted *)
+   st 0; st 0; st 0; st 0;                          (* the loop runs request 0 and request 1 *)
+   st 0; (O, CTau); st 0; (O, CTau); st 0; st 0; st 0; st 0; st 0].
+
+Example C03_ex_overtake :
+  let s := fst (run wk_fstep (init_state 1024 256) ex_overtake) in
+  reachable wk_init wk_step s /\ lenU (w_sh s) = -1 /\ itemsU (w_sh s) = [] /\ n_p1 QU s = 1 /\
+  d_q QU s = 0 /\ flag (w_sh s) = 1 /\ eff_edge (w_sh s) = true /\ c_pc (con s) = CWait.
+Proof. split; [apply wk_run_reachable|]. vm_compute. repeat split; reflexivity. Qed.
+
+(* two high-priority requests of one producer run in issue order (hypotheses of
+   urgent_fifo_per_producer with a = request 0, b = request 1); a wake request on an open
+   connection gives one OnTraffic, a wake after a close gives none *)
+Definition wake5 : tspec := mkSpec false (KWake 5) true O.
+Definition close5 : tspec := mkSpec false (KClose 5) false O.
+Definition lowreq (t : nat) (sp : tspec) : list (tid * choice) := [(t, CStart sp); st t; st t; st t; st t; st t].
+Definition ex_fifo : list (tid * choice) :=
+  [(1%nat, CStart hi); st 1; st 1; st 1; st 1; (1%nat, CStart hi); st 1; st 1; st 1] ++
+  lowreq 2 wake5 ++ lowreq 2 close5 ++ lowreq 2 wake5 ++
+  [(O, CStep [-1]); st 0; st 0; st 0; st 0; st 0; st 0; st 0; st 0; st 0; st 0; st 0; (O, CTau); st 0; (O, CTau);
+   st 0; st 0; st 0; st 0].
+
+Example C03_ex_fifo_wake :
+  let s := fst (run wk_fstep (init_state 1024 256) ex_fifo) in
+  reachable wk_init wk_step s /\ g_ovf (w_gh s) = false /\ g_fault (w_gh s) = false /\ quiescent_b s = true /\
+  map (fun e => tk_id (snd e)) (g_exec (w_gh s)) = [0; 1; 2; 3; 4]%nat /\
+  g_traffic (w_gh s) = [(2%nat, 5)] /\ g_cb (w_gh s) = [2; 4]%nat /\ closed (w_env s) = [5].
+Proof. split; [apply wk_run_reachable|]. vm_compute. repeat split; reflexivity. Qed.
+
+(* outside the property, and why the assumption g_fault = false is needed: if the eventfd write of
+   request 0 fails with an error other than EAGAIN, Trigger returns that error (request 0 is not
+   "accepted without error"), the flag stays 1, request 1 is then accepted (its CAS fails, Trigger
+   returns nil) and nobody ever wakes the loop: a quiescent state with two queued requests *)
+Definition ex_fault : list (tid * choice) :=
+  [(1%nat, CStart hi); st 1; st 1; st 1; (1%nat, CFault); (2%nat, CStart hi); st 2; st 2; st 2; st 0].
+
+Example C03_ex_write_fault :
+  let s := fst (run wk_fstep (init_state 1024 256) ex_fault) in
+  reachable wk_init wk_step s /\ g_fault (w_gh s) = true /\ quiescent_b s = true /\
+  g_rej (w_gh s) = [0%nat] /\ g_acc (w_gh s) = [1%nat] /\ g_exec (w_gh s) = [] /\
+  List.length (itemsU (w_sh s)) = 2%nat /\ flag (w_sh s) = 1.
+Proof. split; [apply wk_run_reachable|]. vm_compute. repeat split; reflexivity. Qed.
